@@ -12,6 +12,7 @@ import (
 	"testing"
 
 	"verif/harness/model"
+	"verif/harness/ops"
 
 	"pgregory.net/rapid"
 )
@@ -89,6 +90,8 @@ func c17Check(c c17Case) string {
 	head := fmt.Sprintf("mode=%s branch=%v exts=%q doc=%q\n", c.Mode, c.Branch, c.Exts, truncate(string(c.Doc), 300))
 	for _, r := range []c17Result{a, b} {
 		if len(r.died) > 5 && r.died[:5] == "INFRA" {
+			ops.InfraCount.Add(1)
+			ops.LastInfra.Store(r.died)
 			return ""
 		}
 	}
